@@ -113,7 +113,7 @@ def _around_ok(step):
 def check_history(ctx, info, d, tr, kind, reqs, metas):
     """the whole history of a transform: `tr.mapping` asked at every position of the first document, both sides
     (Props/C03.lean: mapping_map_eq_mapFold, mapping_mapResult_eq_folds, transform_mapped_position_same_content[_left],
-    transform_deleted_iff_covered, transform_mapping_mono)"""
+    transform_deleted_iff_covered, transform_mapping_mono, transform_size_delta, transform_surviving_token_width)"""
     if not tr.steps:
         return
     maps = list(tr.mapping.maps)
@@ -141,7 +141,12 @@ def check_history(ctx, info, d, tr, kind, reqs, metas):
 
     touch_free = [no_touch(m) for m in maps]
     exp = {"left": [], "right": [], "noTouch": touch_free}
-    images = {}
+    images, covs = {}, {}
+    delta = sum(m.ranges[i + 2] - m.ranges[i + 1] for m in maps for i in range(0, len(m.ranges), 3))
+    if len(new) - len(old) != delta:
+        ctx.violation("history-size-delta", "the document size does not change by the sum of (new - old) over the ranges of all "
+                      "recorded maps", dict(replay, old_size=len(old), new_size=len(new), delta=delta))
+        return
     for side, a in (("left", -1), ("right", 1)):
         prev = None
         for p in range(n + 1):
@@ -159,6 +164,7 @@ def check_history(ctx, info, d, tr, kind, reqs, metas):
                 cur = m.map(cur, a)
             exp[side].append([q, cur, [r.pos, r.del_info, bool(r.deleted)], dele, cov])
             images[(a, p)] = q
+            covs[(a, p)] = cov
             ctx.count("history_positions:" + side)
             if q != cur or r.pos != cur or bool(r.deleted) != dele:
                 ctx.violation("history-map-fold", "Transform.mapping does not map like the left-to-right composition of the recorded "
@@ -207,6 +213,14 @@ def check_history(ctx, info, d, tr, kind, reqs, metas):
             return
         if images[(-1, p)] < images[(1, p)]:
             ctx.count("history_positions_where_sides_differ")
+        # a token no step replaced occupies exactly [map(p, 1), map(p + 1, -1)) (transform_surviving_token_width)
+        if p < n and right_ok and not covs[(1, p)]:
+            ctx.count("history_surviving_token_width")
+            if covs[(-1, p + 1)] or images[(-1, p + 1)] != images[(1, p)] + 1:
+                ctx.violation("history-token-width", "the two association sides disagree on where a token that no step replaced is: "
+                              "map(p + 1, -1) is not map(p, 1) + 1",
+                              dict(replay, pos=p, right_image=images[(1, p)], left_image_of_next=images[(-1, p + 1)]))
+                return
     reqs.append({"op": "historyMap", "maps": [step_map(m) for m in maps], "n": n})
     metas.append(("historyMap", {"schema": info.name, "doc": d.to_json(), "steps": [s.to_json() for s in tr.steps]}, exp))
 
